@@ -368,7 +368,10 @@ class Interp:
             self.prints.append([t, self.line_of.get(id(s)), self.file])
         elif isinstance(s, Exist):
             if self.visible(s.name) == s.neg: raise ProgError('exist', s)
-        elif isinstance(s, Raw): self.out.extend(s.out)
+        elif isinstance(s, Raw):
+            for o in s.out:
+                if isinstance(o, tuple) and o[0] == 'RAWEVAL': self.out.append(o[1] + ' ' + py_str(self.ev(o[2])))     # `$WORD expr`: evaluated pass-through
+                else: self.out.append(o)
         elif isinstance(s, Pass): pass
         else: raise TypeError(s)
 
